@@ -34,10 +34,12 @@ type c04op struct {
 
 func c04Alphabet() []c04op {
 	tA := []refcodec.FieldSpec{{ID: 7, Len: 2}, {ID: 11, Len: 2}, {ID: 4, Len: 1}}  // srcPort u16, dstPort u16, proto u8 = 5 bytes
+	tAx := []refcodec.FieldSpec{{ID: 7, Len: 2}, {ID: 11, Len: 2}, {ID: 4, Len: 1}, {ID: 5, Len: 1}} // A extended by one trailing field = 6 bytes
 	tB := []refcodec.FieldSpec{{ID: 4, Len: 1}, {ID: 5, Len: 1}, {ID: 2, Len: 8}}   // proto u8, tos u8, packetDeltaCount u64 = 10 bytes
 	tC := []refcodec.FieldSpec{{ID: 82, Len: 65535}, {ID: 8, Len: 4}}              // interfaceName string, sourceIPv4Address
 	// bodies: 10 bytes parse as two A records or one B record, with different values
-	bodyA := []byte{0x12, 0x34, 0x00, 0x50, 0x06, 0xab, 0xcd, 0x01, 0xbb, 0x11}
+	// 30 bytes: six A records, five Ax records or three B records, with different values each way
+	bodyA := []byte{0x12, 0x34, 0x00, 0x50, 0x06, 0xab, 0xcd, 0x01, 0xbb, 0x11, 1, 2, 3, 4, 5, 6, 7, 8, 9, 10, 11, 12, 13, 14, 15, 16, 17, 18, 19, 20}
 	bodyB := []byte{0x11, 0x20, 0, 0, 0, 0, 0, 0, 0x30, 0x39}
 	bodyC := []byte{0x03, 'e', 't', 'h', 10, 0, 0, 1} // valid under C only by accident of lengths; under A: 5 + 3 padding
 	var ops []c04op
@@ -47,6 +49,7 @@ func c04Alphabet() []c04op {
 			n := func(k string) string { return fmt.Sprintf("%s(d%d,%d)", k, d, id) }
 			ops = append(ops,
 				c04op{n("T_A"), refcodec.TemplateMsg(h, refcodec.Template{ID: id, Fields: tA})},
+				c04op{n("T_Ax"), refcodec.TemplateMsg(h, refcodec.Template{ID: id, Fields: tAx})},
 				c04op{n("T_B"), refcodec.TemplateMsg(h, refcodec.Template{ID: id, Fields: tB})},
 				c04op{n("T_C"), refcodec.TemplateMsg(h, refcodec.Template{ID: id, Fields: tC})},
 				// unknown IANA element 999: refused in strict mode (a valid template in lenient modes)
@@ -229,7 +232,7 @@ func runC04(tier, replay string) int {
 	cov["samples"] = samples
 	cov["evaluations"] = traces
 	cov["distinct_nontrivial"] = interesting
-	cov["rule"] = "pass (a): every history of the 40-message alphabet (2 domains x 2 ids x {3 valid templates, 4 bad templates, 3 data bodies}) up to hist_depth, replayed on a fresh collector in lock-step with the tmplstore/refcodec model; pass (b): BFS de-duplicated on the collector's template-table snapshot until the graph closes. distinct_nontrivial = distinct reachable template tables with at least one template"
+	cov["rule"] = "pass (a): every history of the 44-message alphabet (2 domains x 2 ids x {4 valid templates incl. one that extends another, 4 bad templates, 3 data bodies}) up to hist_depth, replayed on a fresh collector in lock-step with the tmplstore/refcodec model; pass (b): BFS de-duplicated on the collector's template-table snapshot until the graph closes. distinct_nontrivial = distinct reachable template tables with at least one template"
 	cov["exhaustive"] = exhaustive && closedAll
 	cov["closed"] = closedAll
 	cov["per_config"] = perCfg
